@@ -138,8 +138,7 @@ MC_INIT
             mc::BfsOpts o;
             o.max_states = 6000000;
             std::string name = mc::fmt("streams.%s.cap%d%s", gs::codec_name(codec), cap, small ? ".reduced_alphabet" : "");
-            if (cap > 5 && !getenv("C05_ALL_CAPS") && !mc::thorough())
-                continue;
+            o.thorough_only = cap > 5; // quick: capacities 2..5
             mc::add_bfs(name, [codec, cap, small] { return std::unique_ptr<mc::Model>(new RxModel(codec, cap, small)); }, o);
         }
 }
